@@ -106,3 +106,68 @@ func c04Merge(n int) {
 		vnd.Cover("C04.merge.two-slots")
 	}
 }
+
+// VerifC04_MergeDutiesLarge: an operator-sized answer (32 or 40 duties, so that the function's
+// capacity guess - one thirty-second of the number of duties - is not zero): 1..3 slots with a
+// single validator each, in any place among the slots, and one slot with all the others; symbolic
+// positions. Every validator leaves with its own position, committee index and committee size,
+// and every slot's duty holds exactly its own validators.
+func VerifC04_MergeDutiesLarge() {
+	total := 32 + 8*vnd.Choose("extra-duties", 2)
+	singles := vnd.IntRange("single-validator-slots", 1, 3)
+	bigSlotAt := vnd.Choose("place-of-the-full-slot", singles+1) // before, between or after the single-validator slots
+	given := make([]*api.AttesterDuty, total)
+	assigned := make([]c04Assigned, total)
+	slotOf := func(i int) phase0.Slot {
+		// the first `singles` validators have a slot of their own, the rest share one
+		k := singles
+		if i < singles {
+			k = i
+		}
+		// slots 64.. in order, the full slot inserted at bigSlotAt
+		switch {
+		case i >= singles:
+			return phase0.Slot(64 + bigSlotAt)
+		case k < bigSlotAt:
+			return phase0.Slot(64 + k)
+		default:
+			return phase0.Slot(64 + k + 1)
+		}
+	}
+	for i := range given {
+		a := c04Assigned{slot: slotOf(i), validator: phase0.ValidatorIndex(1000 + i), committee: phase0.CommitteeIndex(i % 4),
+			position: vnd.U64("position"), length: uint64(100 + i%4), atSlot: 4}
+		vnd.Assume(a.position < a.length)
+		assigned[i] = a
+		given[i] = &api.AttesterDuty{Slot: a.slot, ValidatorIndex: a.validator, CommitteeIndex: a.committee,
+			ValidatorCommitteeIndex: a.position, CommitteeLength: a.length, CommitteesAtSlot: a.atSlot}
+	}
+	duties, err := MergeDuties(context.Background(), given)
+	vnd.Assert(err == nil && len(duties) == singles+1, "C04.mergelarge.one-duty-per-slot")
+	for _, a := range assigned {
+		var d *Duty
+		for _, c := range duties {
+			if c.Slot() == a.slot {
+				d = c
+			}
+		}
+		vnd.Assert(d != nil, "C04.mergelarge.validator-slot-has-a-duty")
+		want := total - singles
+		if a.slot != phase0.Slot(64+bigSlotAt) {
+			want = 1
+		}
+		vnd.Assert(len(d.ValidatorIndices()) == want && len(d.CommitteeIndices()) == want && len(d.ValidatorCommitteeIndices()) == want, "C04.mergelarge.slot-holds-exactly-its-validators")
+		found := 0
+		for k, v := range d.ValidatorIndices() {
+			if v != a.validator {
+				continue
+			}
+			found++
+			vnd.Assert(d.CommitteeIndices()[k] == a.committee, "C04.mergelarge.validator-keeps-its-committee-index")
+			vnd.Assert(d.ValidatorCommitteeIndices()[k] == a.position, "C04.mergelarge.validator-keeps-its-position")
+		}
+		vnd.Assert(found == 1, "C04.mergelarge.validator-appears-once-in-its-slot")
+		vnd.Assert(d.CommitteeSize(a.committee) == a.length, "C04.mergelarge.committee-size-kept")
+	}
+	vnd.Cover("C04.mergelarge.checked")
+}
